@@ -102,8 +102,14 @@ def obligations(cx):
     all_raise(cx, "incomplete.single-experiment-without-activation-energy", ps, ERR, function='Membrane.calculate_activation_energy')
     ctrm = {'Membrane.get_penetrant_data': CM.penetrant_data_contract(1, False), 'min(key=)': CM.min_key_contract, 'numpy.searchsorted': CM.searchsorted_contract}
     ps = cx.explore(call(src, 'Membrane.get_permeance', [], dict(temperature=Tt, component=c1), self_obj=mem), contracts=ctrm, pre=[Tt > 0])
-    cx.ob("incomplete.single-experiment-without-activation-energy.get_permeance", [], blit(all(p.outcome == 'raise' and p.value in ERR for p in ps if z3sat(p.pc + [ne(app('xT', lift(0), *flatten(c1.f['name'])), Tt)]))),
-          kind='paths', function='Membrane.get_permeance', statement="away from the experiment's temperature a single experiment without activation energy is rejected")
+    # away from the experiment's temperature every path raises: a path that returns normally (or leaves in another way) implies T == T_exp
+    x0 = app('xT', lift(0), *flatten(c1.f['name']))
+    others = [p for p in ps if not (p.outcome == 'raise' and p.value in ERR)]
+    cx.ob("incomplete.single-experiment-without-activation-energy.get_permeance", [], blit(len(ps) >= 1 and any(p.outcome == 'raise' and p.value in ERR for p in ps)), kind='paths', function='Membrane.get_permeance',
+          statement="a single experiment without activation energy is rejected on some path (away from its temperature)")
+    for i, p in enumerate(others):
+        cx.ob("incomplete.single-experiment-without-activation-energy.get_permeance.normal-path-%d-only-at-the-experiment-temperature" % i, p.pc, eq(x0, Tt), function='Membrane.get_permeance',
+              statement="away from the experiment's temperature a single experiment without activation energy is rejected: a path that does not raise implies T == T_experiment")
     cx.assume_note("exception class recorded per path: ValueError in all listed cases; a division-by-zero exit (outside the real model) also counts as not returning normally")
     cx.assume_note("process models: N >= 1; curves: at least one composition (property quantifier)")
 
